@@ -509,3 +509,58 @@ def unit_bigint(tier="quick", seed=0):
         o["model"] = dict(case=fails[0][0], observed=fails[0][1], n_failing=len(fails))
         o["replayed"] = f"{len(fails)} of {n} cases fail; first {fails[0][0]}: {fails[0][1]}"
     return dict(status="ok", obligations=[o], summary=f"large occupations: {n} cases")
+
+
+def unit_typed_states(tier="quick", seed=0):
+    """C03, native: states given through other containers / number types (numpy arrays, tuples, numpy scalars, floats).  A state whose occupations are
+    not non-negative integers is refused (at construction or by simulate) - never rounded, truncated or clipped into another state and computed;
+    an integral-valued variant is either refused or gives exactly the amplitudes of the plain list state."""
+    import numpy as np
+    import lightworks as lw
+    from lightworks import emulator
+    fails, n = [], 0
+    c = lw.Circuit(3)
+    c.bs(0, reflectivity=0.3)
+    c.bs(1, reflectivity=0.6)
+    c.ps(0, 0.4)
+    sim = emulator.Simulator(c)
+    outs = [lw.State(list(o)) for o in fock.fock(3, 1) + fock.fock(3, 2)]
+
+    def run(make_in, make_out=None):
+        ins = make_in()
+        return sim.simulate(ins, [make_out()] if make_out else None)
+    invalid = [("numpy array 1.5,0.5,0", lambda: lw.State(np.array([1.5, 0.5, 0]))), ("numpy array 0.9,0,0", lambda: lw.State(np.array([0.9, 0, 0]))),
+               ("numpy array 1,-0.5,0", lambda: lw.State(np.array([1.0, -0.5, 0]))), ("numpy array 1,-1,0", lambda: lw.State(np.array([1, -1, 0]))),
+               ("list 1.5,0,0", lambda: lw.State([1.5, 0, 0])), ("tuple 0.5,0.5,1", lambda: lw.State((0.5, 0.5, 1))),
+               ("numpy float32 0.5", lambda: lw.State([np.float32(0.5), 0, 1])), ("complex", lambda: lw.State([1 + 0.5j, 0, 0])),
+               ("numpy array 2.9999,0,0", lambda: lw.State(np.array([2.9999, 0, 0])))]
+    for what, mk in invalid:
+        for as_output in (False, True):
+            n += 1
+            try:
+                if as_output:
+                    r = sim.simulate(lw.State([1, 0, 0]), mk())
+                else:
+                    r = sim.simulate(mk())
+                fails.append((dict(state=what, used_as="output" if as_output else "input"),
+                              f"a state with non-integer / negative occupations was computed (result over inputs {[str(i) for i in r.inputs]}, outputs {[str(o) for o in r.outputs][:3]}...)"))
+            except Exception:  # noqa: BLE001
+                pass
+    integral = [("numpy int array", lambda: lw.State(np.array([1, 0, 1])), [1, 0, 1]), ("tuple", lambda: lw.State((0, 2, 0)), [0, 2, 0]),
+                ("numpy int64 entries", lambda: lw.State([np.int64(1), np.int64(1), 0]), [1, 1, 0]), ("numpy float array 1.,0.,1.", lambda: lw.State(np.array([1.0, 0.0, 1.0])), [1, 0, 1])]
+    for what, mk, plain in integral:
+        n += 1
+        try:
+            got = sim.simulate(mk(), outs if sum(plain) == 2 else None)
+        except Exception:  # noqa: BLE001
+            continue            # refused: allowed
+        want = sim.simulate(lw.State(plain), outs if sum(plain) == 2 else None)
+        if [tuple(o.s) for o in got.outputs] != [tuple(o.s) for o in want.outputs] or np.abs(np.array(got.array) - np.array(want.array)).max() > 1e-12:
+            fails.append((dict(state=what), f"accepted, but the amplitudes differ from those of State({plain})"))
+    o = dict(name="lightworks/emulator/simulation/simulator.py:Simulator.simulate#bnd.typed-states", kind="bnd", cases=n, result="bounded-fail" if fails else "bounded-pass",
+             backend="native floats", ms=0, note="states built from numpy arrays / tuples / numpy scalars / floats: invalid occupations are refused (never truncated and computed), integral ones refused or computed as the list state")
+    if fails:
+        o["failing_cases"] = [str(f[0]) for f in fails]
+        o["model"] = dict(case=fails[0][0], observed=fails[0][1], n_failing=len(fails))
+        o["replayed"] = f"{len(fails)} of {n} cases fail; first {fails[0][0]}: {fails[0][1]}"
+    return dict(status="ok", obligations=[o], summary=f"typed states: {n} cases")
